@@ -386,8 +386,26 @@ func genInto(r *rand.Rand, v reflect.Value, depth int, big bool) {
 		if t.Elem().Kind() == reflect.Uint8 && big && r.Intn(3) == 0 {
 			n = []int{255, 256, 257, 300}[r.Intn(4)]
 		}
+		// dense: a long slice of SMALL numbers in a wide integer type -- the packed form (2..8 bytes per element) is
+		// longer than the compact JSON text ("7," = 2 bytes), the opposite of every other shape generated here
+		dense := false
+		switch t.Elem().Kind() {
+		case reflect.Uint16, reflect.Uint32, reflect.Uint64, reflect.Int16, reflect.Int32, reflect.Int64:
+			if r.Intn(6) == 0 {
+				dense = true
+				n = 24 + r.Intn(70)
+			}
+		}
 		s := reflect.MakeSlice(t, n, n) // non-nil even when empty
 		for i := 0; i < n; i++ {
+			if dense {
+				if s.Index(i).CanUint() {
+					s.Index(i).SetUint(uint64(r.Intn(10)))
+				} else {
+					s.Index(i).SetInt(int64(r.Intn(10)))
+				}
+				continue
+			}
 			genInto(r, s.Index(i), depth+1, false)
 		}
 		v.Set(s)
